@@ -70,12 +70,25 @@ def get_filesystem(path: str) -> 'FileSystem[Any]':
     raise ValueError(f'Unrecognised filesystem for "{path}"')
 
 
+def _norm_name(name: str) -> str:
+    """Normalise a filename the way every filesystem here looks it up.
+
+    Both slashes become '/', redundant separators and '.' or '..' segments are collapsed,
+    and the case is folded.
+    """
+    # Swap backslashes first, so that they are separators for normpath() on every platform.
+    return os.path.normpath(name.replace('\\', '/')).replace('\\', '/').casefold()
+
+
 def _folder_prefix(folder: str) -> str:
     """Convert a normalised folder name into the prefix shared by the files inside it.
 
     The root folder produces an empty prefix, anything else ends with exactly one slash
     so that 'mat' does not match 'materials/...'.
     """
+    if folder == '.':
+        # normpath() turns the empty (root) folder into '.', which only dot-files start with.
+        folder = ''
     folder = folder.rstrip('/')
     return folder + '/' if folder else ''
 
@@ -441,8 +454,7 @@ class VirtualFileSystem(FileSystem[str]):
         """Convert paths to one representation."""
         if isinstance(path, File):
             path = path.path
-        # Swap backslashes first, so that they are separators for normpath() on every platform.
-        return os.path.normpath(path.replace('\\', '/')).replace('\\', '/').casefold()
+        return _norm_name(path)
 
     def open_bin(self, name: Union[str, File[Self]]) -> BinaryIO:
         """Return a bytes buffer for a 'file'."""
@@ -482,11 +494,7 @@ class VirtualFileSystem(FileSystem[str]):
 
     def walk_folder(self, folder: str = '') -> Iterator[File[Self]]:
         """Return all files that are 'subfolders' of the provided folder."""
-        folder = self._clean_path(folder)
-        if folder == '.':
-            # normpath() turns the empty (root) folder into '.', which only dot-files start with.
-            folder = ''
-        folder = _folder_prefix(folder)
+        folder = _folder_prefix(self._clean_path(folder))
 
         # Compare the normalised keys, the folder has been normalised too.
         for key, (filename, data) in self._mapping.items():
@@ -601,7 +609,7 @@ class ZipFileSystem(FileSystem[ZipInfo]):
     def walk_folder(self, folder: str = '') -> Iterator[File[Self]]:
         """Yield files in a folder."""
         # \\ is not allowed in zips.
-        folder = _folder_prefix(folder.replace('\\', '/').casefold())
+        folder = _folder_prefix(_norm_name(folder))
         for filename, fileinfo in self._name_to_info.items():
             if filename.startswith(folder):
                 yield File(self, fileinfo.filename, fileinfo)
@@ -618,7 +626,7 @@ class ZipFileSystem(FileSystem[ZipInfo]):
         else:
             name = name.replace('\\', '/')
             try:
-                info = self._name_to_info[name.casefold()]
+                info = self._name_to_info[_norm_name(name)]
             except KeyError:
                 raise FileNotFoundError(f'{self.path}:{name}') from None
 
@@ -640,13 +648,13 @@ class ZipFileSystem(FileSystem[ZipInfo]):
     def _get_file(self, name: str) -> File[Self]:
         name = name.replace('\\', '/')
         try:
-            info = self._name_to_info[name.casefold()]
+            info = self._name_to_info[_norm_name(name)]
         except KeyError:
             raise FileNotFoundError(f'{self.path}:{name}') from None
         return File(self, name, info)
 
     def _file_exists(self, name: str) -> bool:
-        return name.replace('\\', '/').casefold() in self._name_to_info
+        return _norm_name(name) in self._name_to_info
 
     def _get_cache_key(self, file: File[Self]) -> int:
         """Return the CRC of the VPK file."""
@@ -668,10 +676,10 @@ class VPKFileSystem(FileSystem[VPKFile]):
         }
 
     def _file_exists(self, name: str) -> bool:
-        return name.casefold().replace('\\', '/') in self._name_to_file
+        return _norm_name(name) in self._name_to_file
 
     def _get_file(self, name: str) -> File[Self]:
-        key = name.casefold().replace('\\', '/')
+        key = _norm_name(name)
         try:
             file = self._name_to_file[key]
         except KeyError:
@@ -681,7 +689,7 @@ class VPKFileSystem(FileSystem[VPKFile]):
     def walk_folder(self, folder: str = '') -> Iterator[File[Self]]:
         """Yield files in a folder."""
         # All VPK files use forward slashes. Compare the case-folded keys, like lookups do.
-        folder = _folder_prefix(folder.replace('\\', '/').casefold())
+        folder = _folder_prefix(_norm_name(folder))
         for key, file in self._name_to_file.items():
             if key.startswith(folder):
                 yield File(self, file.filename, file)
@@ -693,7 +701,7 @@ class VPKFileSystem(FileSystem[VPKFile]):
             file = self._get_data(name)
         else:
             try:
-                file = self._name_to_file[name.casefold().replace('\\', '/')]
+                file = self._name_to_file[_norm_name(name)]
             except KeyError:
                 raise FileNotFoundError(name) from None
         return io.BytesIO(file.read())
@@ -709,7 +717,7 @@ class VPKFileSystem(FileSystem[VPKFile]):
             file = self._get_data(name)
         else:
             try:
-                file = self._name_to_file[name.casefold().replace('\\', '/')]
+                file = self._name_to_file[_norm_name(name)]
             except KeyError:
                 raise FileNotFoundError(name) from None
         # Wrap the data to treat it as bytes, then
